@@ -29,23 +29,36 @@ type v12Run struct {
 	streams []string
 	groups  map[string]*consumerGroup
 	parts   map[string]int32
+	paused  map[string]map[int32]bool // metadata glue played by the driver, like parts
+	names   v12Names
 	idx     uint64
 	log     logger.Logger
 	expired []string // consumers reported by the liveness handler
 }
 
 func (r *v12Run) state() v12State {
-	st := v12State{Gs: map[string]v12Group{}, Parts: map[string]int32{}, Idx: r.idx}
+	st := v12State{Gs: map[string]v12Group{}, Parts: map[string]int32{}, Paused: map[string][]int32{}, Idx: r.idx}
 	for _, v := range r.servers {
-		st.Gs[v] = v12Project(r.groups[v])
+		st.Gs[v] = r.names.group(v12Project(r.groups[v]))
 	}
 	for _, s := range r.streams {
 		st.Parts[s] = r.parts[s]
+		st.Paused[s] = []int32{}
+		for p := int32(0); p < r.parts[s]; p++ {
+			if r.paused[s][p] {
+				st.Paused[s] = append(st.Paused[s], p)
+			}
+		}
 	}
 	return st
 }
 
-func (r *v12Run) countPartitions(stream string) int32 { return r.parts[stream] }
+// getStreamPartitions as the metadata store answers it: all partitions of the
+// stream (the groups ask with the real name)
+func (r *v12Run) countPartitions(stream string) int32 { return r.parts[r.names.m(stream)] }
+
+// partExists: admission of PAUSE_STREAM / RESUME_STREAM (metadata glue)
+func (r *v12Run) partExists(s string, p int32) bool { return p >= 0 && p < r.parts[s] }
 
 func (r *v12Run) allExist(streams []string) bool {
 	for _, s := range streams {
@@ -94,21 +107,38 @@ func (r *v12Run) step(id int, step map[string]interface{}) v12Event {
 			s, n := vStr(step, "s"), vInt(step, "n")
 			args["s"], args["n"] = s, n
 			r.parts[s] = int32(n)
+			r.paused[s] = map[int32]bool{}
 			r.idx++
 		case "DeleteStream":
 			s := vStr(step, "s")
 			args["s"] = s
 			r.parts[s] = 0
+			r.paused[s] = map[int32]bool{}
 			r.idx++
 			// metadataAPI.removeStream: the deletion is announced to the groups
 			// before the apply returns
 			for _, v := range r.servers {
 				if g := r.groups[v]; g != nil {
-					if err := g.StreamDeleted(s, r.idx); err != nil {
+					if err := g.StreamDeleted(r.names.r(s), r.idx); err != nil {
 						obs.Err = "refused"
 					}
 				}
 			}
+		case "Pause", "Resume":
+			// the metadata store is not part of this binding: pausing is glue (the
+			// groups are never told); the real PAUSE_STREAM / RESUME_STREAM run in
+			// the Server.apply binding
+			s, p := vStr(step, "s"), int32(vInt(step, "p"))
+			args["s"], args["p"] = s, p
+			if !r.partExists(s, p) {
+				obs.Err = "precondition"
+				return
+			}
+			r.idx++
+			if r.paused[s] == nil {
+				r.paused[s] = map[int32]bool{}
+			}
+			r.paused[s][p] = a == "Pause"
 		case "CreateGroup":
 			c, coord, streams := vStr(step, "c"), vStr(step, "coord"), vFStrs(step, "streams")
 			args["c"], args["coord"], args["streams"] = c, coord, streams
@@ -127,7 +157,7 @@ func (r *v12Run) step(id int, step map[string]interface{}) v12Event {
 				srv := v
 				r.groups[v] = newConsumerGroup(v, time.Hour,
 					&proto.ConsumerGroup{Id: "g", Coordinator: coord,
-						Members: []*proto.Consumer{{Id: c, Streams: streams}}},
+						Members: []*proto.Consumer{{Id: c, Streams: r.names.rs(streams)}}},
 					false, r.log,
 					func(groupID, consumerID string) error {
 						r.expired = append(r.expired, srv+":"+consumerID)
@@ -148,7 +178,7 @@ func (r *v12Run) step(id int, step map[string]interface{}) v12Event {
 					obs.Err = "no_group"
 					continue
 				}
-				if err := g.AddMember(c, streams, r.idx); err != nil {
+				if err := g.AddMember(c, r.names.rs(streams), r.idx); err != nil {
 					obs.Err = v12ErrClass(err)
 				}
 			}
@@ -247,11 +277,7 @@ func (r *v12Run) step(id int, step map[string]interface{}) v12Event {
 			asg, _, err := g.GetAssignments(c, e)
 			obs.Err = v12ErrClass(err)
 			if err == nil {
-				ret := map[string][]int32{}
-				for s, ps := range asg {
-					ret[s] = append([]int32{}, ps...)
-				}
-				obs.Ret = ret
+				obs.Ret = r.names.ret(asg)
 			}
 		default:
 			panic("unknown action " + a)
@@ -281,6 +307,8 @@ func TestVerifGroupsDirect(t *testing.T) {
 			streams: vFStrs(b.Cfg, "streams"),
 			groups:  map[string]*consumerGroup{},
 			parts:   map[string]int32{},
+			paused:  map[string]map[int32]bool{},
+			names:   v12NamesOf(b.Cfg),
 			log:     lg,
 		}
 		init := b.Cfg["parts"].(map[string]interface{})
